@@ -19,7 +19,7 @@ From Coq Require Import ZArith Reals Lra Lia List Floats Bool Arith.
 From Flocq Require Import Core BinarySingleNaN PrimFloat.
 From OV Require Import Base.Panic Base.Arith Base.RoundModel Model.Vector Model.Matrix Model.Newton Inst.FloatInst
   Proofs.Matrix Proofs.Newton Proofs.NewtonJac Proofs.ComplexRound Proofs.RoundDotFloat Proofs.RoundTriFloat
-  Proofs.JacExactGen Proofs.JacExactRound.
+  Proofs.Newton2Jac Proofs.JacExactGen Proofs.JacExactRound.
 Import ListNotations.
 Local Open Scope R_scope.
 
@@ -124,6 +124,79 @@ Proof.
   exact (proj2 (proj2 (fd_quotient_error_float _ _ d A B0 eps Fq Hd Hu He Ha Hb))).
 Qed.
 
+(* truncation + floor + drift at binary64: the total error of an entry against the partial derivative of the exact function f_i at the
+   real point FR x (FRl = real values of a float vector) *)
+Definition FRl (p : list PrimFloat.float) : list R := map FR p.
+
+Lemma total_error_triangle (q A B0 G1 d l T Fl Dr : R) : d <> 0 ->
+  Rabs (q - (A - B0) / d) <= Fl -> Rabs ((G1 - B0) / d - l) <= T -> Rabs (A - G1) <= Dr ->
+  Rabs (q - l) <= T + Fl + Dr / Rabs d.
+Proof.
+  intros Hd H1 H2 H3.
+  replace (q - l) with ((q - (A - B0) / d) + (A - G1) / d + ((G1 - B0) / d - l)) by (field; exact Hd).
+  eapply Rle_trans; [apply Rabs_triang|]. eapply Rle_trans; [apply Rplus_le_compat_r, Rabs_triang|].
+  assert (D2 : Rabs ((A - G1) / d) <= Dr / Rabs d).
+  { unfold Rdiv. rewrite Rabs_mult, Rabs_inv. apply Rmult_le_compat_r; [|exact H3].
+    apply Rlt_le, Rinv_0_lt_compat, Rabs_pos_lt; exact Hd. }
+  lra.
+Qed.
+
+Lemma jacobian_total_error_float_lemma (F : list PrimFloat.float -> res (list PrimFloat.float))
+    (x : list PrimFloat.float) (d : PrimFloat.float) (J : matrix AF) (evs : list (list PrimFloat.float)) :
+  jacobian OF F x d = Ok (J, evs) ->
+  exists f0, F x = Ok f0 /\ rows J = length f0 /\ cols J = length x /\
+  forall i j, (i < length f0)%nat -> (j < length x)%nat ->
+    exists fj q, F (call_pt OF x d j) = Ok fj /\ mget J i j = Ok q /\
+      forall (fi : list R -> R) (eps Dr : R) (g1 g2 : R -> R) (B : R),
+        ffinite q -> FR d <> 0 -> no_underflow (FR (nth i fj 0 - nth i f0 0)%float / FR d) -> 0 <= eps ->
+        Rabs (FR (nth i fj 0%float) - fi (FRl (call_pt OF x d j))) <= eps * Rabs (fi (FRl (call_pt OF x d j))) ->
+        Rabs (FR (nth i f0 0%float) - fi (FRl x)) <= eps * Rabs (fi (FRl x)) ->
+        (forall t, Rmin 0 (FR d) <= t <= Rmax 0 (FR d) -> derivable_pt_lim (fun t => fi (xpt (FRl x) j t)) t (g1 t)) ->
+        (forall t, Rmin 0 (FR d) <= t <= Rmax 0 (FR d) -> derivable_pt_lim g1 t (g2 t)) ->
+        (forall t, Rmin 0 (FR d) <= t <= Rmax 0 (FR d) -> Rabs (g2 t) <= B) ->
+        Rabs (fi (FRl (call_pt OF x d j)) - fi (xpt (FRl x) j (FR d))) <= Dr ->
+        Rabs (FR q - g1 0) <=
+          Rabs (FR d) / 2 * B +
+          ((2 * u64 + u64 * u64) * Rabs (fi (FRl (call_pt OF x d j)) - fi (FRl x)) +
+           eps * ((1 + u64) * (1 + u64)) * (Rabs (fi (FRl (call_pt OF x d j))) + Rabs (fi (FRl x)))) / Rabs (FR d) +
+          Dr / Rabs (FR d).
+Proof.
+  intros H. destruct (jacobian_entry_floor_float_lemma F x d J evs H) as (f0 & E0 & Rw & Cl & Hent).
+  exists f0. split; [exact E0|]. split; [exact Rw|]. split; [exact Cl|].
+  intros i j Hi Hj. destruct (Hent i j Hi Hj) as (fj & q & Ej & Em & Eq & Hq).
+  exists fj, q. split; [exact Ej|]. split; [exact Em|].
+  intros fi eps Dr g1 g2 B Fq Hd Hu He Ha Hb Hg1 Hg2 HB HDr.
+  pose proof (Hq _ _ eps Fq Hd Hu He Ha Hb) as G.
+  pose proof (Newton2Jac.fwd_diff_trunc (fun t => fi (xpt (FRl x) j t)) g1 g2 (FR d) B Hg1 Hg2 HB Hd) as T. cbv beta in T.
+  rewrite xpt_0 in T.
+  exact (total_error_triangle _ _ _ _ _ _ _ _ _ Hd G T HDr).
+Qed.
+
+(* the drift term at binary64 from coordinate-wise Lipschitz constants of f_i around FR x + FR d e_j *)
+Lemma drift_lipschitz_float_lemma (F : list PrimFloat.float -> res (list PrimFloat.float))
+    (x : list PrimFloat.float) (d : PrimFloat.float) (st : list PrimFloat.float) (J : matrix AF) (evs : list (list PrimFloat.float))
+    (j : nat) (fi : list R -> R) (L : nat -> R) :
+  jacobian_tr OF F x d = Ok (st, J, evs) ->
+  (forall k, (k < length x)%nat -> ffinite (nth k st 0%float)) ->
+  (j < length x)%nat -> (forall k, 0 <= L k) ->
+  (forall p, length p = length x ->
+     Rabs (fi p - fi (xpt (FRl x) j (FR d))) <= Rsum (length x) (fun k => L k * Rabs (nth k p 0 - nth k (xpt (FRl x) j (FR d)) 0))) ->
+  Rabs (fi (FRl (call_pt OF x d j)) - fi (xpt (FRl x) j (FR d))) <=
+    Rsum (length x) (fun k => L k * drift_bound u64 (FRl x) (FR d) j k).
+Proof.
+  intros H Hfin Hj HL Hlip.
+  destruct (jacobian_call_points_drift_float_lemma F x d st J evs H Hfin) as (_ & _ & _ & Hd & _).
+  assert (Lp : length (FRl (call_pt OF x d j)) = length x).
+  { unfold FRl. rewrite map_length. exact (call_pt_length OF x d j). }
+  assert (Hjr : (j < length (FRl x))%nat) by (unfold FRl; rewrite map_length; exact Hj).
+  assert (Nth : forall (p : list PrimFloat.float) k, nth k (FRl p) 0 = FR (nth k p 0%float)).
+  { intros p k. unfold FRl. rewrite <- FR_zero. apply map_nth. }
+  eapply Rle_trans; [apply Hlip; exact Lp|].
+  apply Rsum_le. intros k Hk. apply Rmult_le_compat_l; [apply HL|].
+  rewrite xpt_nth by exact Hjr. rewrite !Nth. unfold drift_bound. rewrite !Nth.
+  exact (Hd j k Hj Hk).
+Qed.
+
 (* ---------------------------------------------------------------- non-vacuity: the identity on R^1 at x = 1 with the NON-dyadic step 0.1
    (the binary64 number 0x1.999999999999ap-4): fl(1 + 0.1) = 1.1000000000000001, the difference 0.10000000000000009 is exact, the
    entry is 1.0000000000000009 instead of 1 (error 4 u: the floor u |f| / delta with |f| ~ 1, delta ~ 0.1, eps = 0) *)
@@ -159,3 +232,20 @@ Qed.
 (* named constants for the pinned statements *)
 Definition exf_J : matrix AF := @mkM AF [0x1.0000000000004p+0%float] 1 1.
 Definition exf_p0 : PrimFloat.float := 0x1.199999999999ap+0%float.
+
+(* the same run, for the total-error theorem: f_0 = first coordinate, eps = 0, g(t) = 1 + t, g' = 1, g'' = 0 = B,
+   Dr = u |1 + delta| (the rounding of the call point 1 (+) 0.1) *)
+From OV Require Import Proofs.Newton2Deriv.
+Lemma exf_total_conditions :
+  (forall t, derivable_pt_lim (fun t => nth 0 (xpt (FRl exf_x) 0 t) 0) t 1) /\
+  (forall t, derivable_pt_lim (fun _ : R => 1) t 0) /\ Rabs 0 <= 0 /\
+  Rabs (nth 0 (FRl (call_pt OF exf_x exf_d 0)) 0 - nth 0 (xpt (FRl exf_x) 0 (FR exf_d)) 0) <= u64 * Rabs (FR 1%float + FR exf_d).
+Proof.
+  split; [|split; [|split]].
+  - intros t. change (fun t0 : R => nth 0 (xpt (FRl exf_x) 0 t0) 0) with (fun t0 : R => FR 1%float + t0). dpoly.
+  - intros t. apply derivable_pt_lim_const.
+  - rewrite Rabs_R0. lra.
+  - change (nth 0 (FRl (call_pt OF exf_x exf_d 0)) 0) with (FR (1 + exf_d)%float).
+    change (nth 0 (xpt (FRl exf_x) 0 (FR exf_d)) 0) with (FR 1%float + FR exf_d).
+    apply fadd_err_float. apply ffinite_SF. vm_compute. reflexivity.
+Qed.
